@@ -83,7 +83,59 @@ var sqlCaseSites = []string{
 	"1 at time zone a", "next value for a or", "1 between 1 and 2 or", "case when 1 then 1 end or", "waitfor delay '0:0:1' --", "1 procedure analyse()", "1 rlike 1 or", "1 regexp 1 or",
 	"@a := 1 or", "1 or true", "1 or false is null", "1 or null is null", "binary 1 or", "1 in (select 1)", "exists(select 1)", "1 union select load_file('a')", "1 or ascii(1)",
 	"-1' and 1=1 union/* foo */select load_file('/etc/passwd')--", "1' or '1'='1", "x' and sleep(5) -- ", "1\" or 1=1 #", "1 /*!union*/ select", "{a b} or 1", "{`a` or",
+	"1 or 0xabcdefabcdefabcdefabcdefabcdefabcdefabcdefabcdef=1", "select 0x6161616161616161616161616161616161616161616161fe from t", "1 or 0b0101010101010101010101010101010101010101=1", "x'abcdefabcdefabcdefabcdefabcdefabcdefabcdef' or 1",
+	"1 or pg_sleep(5)", "1 or md5(1)=2", "1 union select load_file(1),utl_http.request(2)", "1 and sys_context(1,2)", "1 or to_base64(1)", "1 or sha1(2)", "x' or utl_inaddr.get_host_name(1)='",
 	"\\N or 1", "\\n or 1", "$t$a$t$ or 1", "$T$a$T$ or 1", "1 --sp_password", "1 --SP_PASSWORD", "q'aXa' or 1", "q'AxA' or 1", "1 or q'zaz'='a",
+}
+
+func twin5(s string) string {
+	b := []byte(s)
+	ch := false
+	for i, c := range b {
+		if c == '_' || c >= '0' && c <= '9' {
+			b[i] = c ^ 0x20
+			ch = true
+		}
+	}
+	if !ch {
+		return s
+	}
+	return string(b)
+}
+
+var c10AliasOnce []string
+
+func c10AliasCases() []string {
+	if c10AliasOnce != nil {
+		return c10AliasOnce
+	}
+	var out []string
+	tails := []string{"union select 1,2", "or 1=1", "and sleep(5)", "select 1 from t", "union all select null", "xor 1", "having 1=1", "like 1 or 1"}
+	for _, D := range []int{256, 32768, 65536} {
+		for _, lead := range []string{"", "1 ", "x' "} {
+			for pi, padUnit := range []string{" ", "/**/", "\n", "\x00"} {
+				for ti, t := range tails {
+					if (ti+pi)%2 == 1 && D == 65536 {
+						continue
+					}
+					kwLen := strings.IndexByte(t, ' ')
+					if kwLen < 0 {
+						kwLen = len(t)
+					}
+					w := strings.Repeat("q", kwLen)
+					k := D - kwLen
+					pad := strings.Repeat(padUnit, k/len(padUnit)+1)[:k]
+					if padUnit == "/**/" {
+						// keep the comment run well formed: blanks for the remainder
+						pad = strings.Repeat(padUnit, k/4) + strings.Repeat(" ", k%4)
+					}
+					out = append(out, lead+w+pad+t)
+				}
+			}
+		}
+	}
+	c10AliasOnce = out
+	return out
 }
 
 // C10 — SQLi is insensitive to ASCII letter case.
@@ -100,11 +152,17 @@ func c10() *core.Check {
 			us = append(us, core.Unit{Gen: "sites", Lo: uint64(i), Hi: uint64(i + 1), Arg: tier})
 		}
 		us = append(us, core.Unit{Gen: "kwframes", Lo: 0, Hi: 1, Arg: tier})
+		us = append(us, gen.RangeUnits("alias", uint64(len(c10AliasCases())), 8, "")...)
+		nl := uint64(20000)
+		if tier == "thorough" {
+			nl = 300000
+		}
+		mixes = append(mixes, Mix{Gen: "longtok", N: nl})
 		return append(us, planMix(sqlDomain, mixes)...)
 	}
 	return &core.Check{
 		ID: "C10",
-		Rule: "case-site catalogue (one or more seeds per case-folding site: keyword classes, phrase merge, unary NOT, IN/LIKE/USER() rules, INTO, ;IF, hex/binary/exponent/suffix letters, string prefixes, COLLATE, :: types) with ALL 2^k case masks for k <= 12 non-exempt letters (4096 random masks beyond); every key of the live keyword table in 7-12 sentence frames (word, operator, phrase merge, before '.' and back-tick, after ';', as function) and every other SQL workload input with the masks all-upper, all-lower, alternating x2 and 4 random ones. " +
+		Rule: "case-site catalogue (one or more seeds per case-folding site: keyword classes, phrase merge, unary NOT, IN/LIKE/USER() rules, INTO, ;IF, hex/binary/exponent/suffix letters, string prefixes, COLLATE, :: types) with ALL 2^k case masks for k <= 12 non-exempt letters (4096 random masks beyond); every key of the live keyword table in 7-12 sentence frames (word, operator, phrase merge, before '.' and back-tick, after ';', as function) and every other SQL workload input (incl. 30-64 byte tokens of every lexer) with the masks all-upper, all-lower, alternating x2 and 4 random ones; inputs of 256 B / 32 KiB / 64 KiB made of a word, padding up to exactly that distance and a keyword of the same length (offsets narrowed to 8 or 16 bits alias there); before every comparison the input with bit 5 flipped in '_' and digits is asked once (a byte-wise case fold identifies the two). " +
 			"Exempt positions (over-approximated): letter after a backslash, letter runs after '$', occurrences of sp_password, q-quote letter delimiters and letters directly before a quote in such inputs. Oracle: IsSQLi(s') = IsSQLi(s), verdict and fingerprint. Non-trivial = compared pairs (s,s') with s' != s whose base fingerprint is non-empty; distinct by s'.",
 		Plan: plan,
 		Gen: func(w *core.Worker, u core.Unit, emit func(core.Case)) {
@@ -140,6 +198,17 @@ func c10() *core.Check {
 					emit(core.Case{In: c.In, Kind: "mask", A: int64(m)})
 				}
 			}
+			if u.Gen == "alias" {
+				// long inputs: a word, padding up to a power-of-two distance, then a
+				// keyword of the same length (an offset kept in 8 or 16 bits aliases)
+				cs := c10AliasCases()
+				for i := u.Lo; i < u.Hi && i < uint64(len(cs)); i++ {
+					for _, m := range []uint64{0, ^uint64(0), 0xAAAAAAAAAAAAAAAA, 0x5555555555555555} {
+						emit(core.Case{In: cs[i], Kind: "mask", A: int64(m)})
+					}
+				}
+				return
+			}
 			if u.Gen == "kwframes" {
 				// every key of the live table (all letters a-z occur) in the
 				// sentence frames that route it through each look-up site
@@ -155,6 +224,15 @@ func c10() *core.Check {
 			w.Eval(1)
 			if s2 == s {
 				return
+			}
+			if len(s) <= 4096 {
+				// the same input with bit 5 flipped in '_' and digits (what a
+				// byte-wise |0x20 or &^0x20 "case fold" would also identify with it)
+				// is asked first: a look-up that remembers answers under such a
+				// key then answers the two spellings from different sources
+				if tw := twin5(s); tw != s {
+					li.IsSQLi(tw)
+				}
 			}
 			b1, f1 := li.IsSQLi(s)
 			b2, f2 := li.IsSQLi(s2)
@@ -190,6 +268,11 @@ var htmlCaseSites = []string{
 	"<a href=&#x6a;avascript:x>", "<a href=&#X6A;avascript:x>", "<a href=&#x6A;&#x41;&#x56;&#x41;>", "<a href=&#xa;java>", "<a href=d&#x61;ta:>", "<a href=&#106;&#97;&#118;&#97;>",
 	"<!doctype html>", "<!DOCTYPE", "<!entity x>", "<!ENTITY % x>", "<?import x>", "<?xml x>", "<!--[if x]>", "<!--[IF IE]>x<![endif]-->", "<%xml %>",
 	"x\" onclick=y", "x` onclick=y", "onerror=alert(1)>", "'><script>", "</script>", "</iframe x", "<a b=c onclick=d>", "<img/src/onerror=x>",
+	// real-world continuations of the schemes
+	"<a href=data:image/svg+xml,x>", "<img src=data:image/png;base64,x>", "<a href=data:text/html;base64,x>", "<a href=javascript:alert(1)//>", "<a href=vbscript:msgbox(1)>", "<a href=view-source:http://x/>", "<a href=data:application/xhtml+xml,x>",
+	// elements with their own tokenizer content model in HTML5 (what a "more conformant" tokenizer would special-case), followed by a trigger
+	"<plaintext><script>", "<textarea><script>", "<title><script>", "<xmp><script>", "<noembed><script>", "<noframes><script>", "<noscript><script>", "<template><script>", "<select><script>", "<math><script>", "<svg><script>",
+	"<plaintext>x' onclick=y", "<textarea>' onerror=x ", "<title></title><iframe>", "<xmp></xmp><a onclick=x>", "</plaintext><script>", "</textarea><style>", "<script></script><embed>", "<style></style><base>",
 }
 
 // C11 — XSS is insensitive to letter case and to NULs inside names.
